@@ -34,6 +34,31 @@ TBegin ==
   /\ ctx' = [a |-> Rec.a, b |-> Rec.b, o |-> Rec.opts, d |-> <<>>, n |-> 0, mode |-> "dp", t |-> 0]
   /\ doc' = Rec.a /\ rest' = <<>> /\ status' = "idle"
 
+(* Listed deviation "setkeys-identity-ignores-key-names": under SetKeys with two or more keys the   *)
+(* identity of a member is the hash of the SORTED hashes of its key values, so two members of one  *)
+(* array whose key values are permutations of each other across the keys are taken for the same    *)
+(* object (v2/object.go ident: hashes.combine()).                                                  *)
+ValueBag(m, keys) == LET s == [i \in DOMAIN keys |-> m.v[keys[i]]] IN [x \in SeqRange(s) |-> Cardinality({i \in DOMAIN s : s[i] = x})]
+Colliding(m1, m2, keys) ==
+  /\ IsObj(m1) /\ IsObj(m2)
+  /\ \A i \in DOMAIN keys : HasKey(m1, keys[i]) /\ HasKey(m2, keys[i])
+  /\ \E i \in DOMAIN keys : m1.v[keys[i]] # m2.v[keys[i]]
+  /\ ValueBag(m1, keys) = ValueBag(m2, keys)
+RECURSIVE ArrayMembers(_)
+ArrayMembers(n) ==      \* the object members of every array inside n
+  CASE IsArr(n) -> {n.v[i] : i \in {j \in DOMAIN n.v : IsObj(n.v[j])}} \cup UNION {ArrayMembers(n.v[i]) : i \in DOMAIN n.v}
+    [] IsObj(n) -> UNION {ArrayMembers(n.v[key]) : key \in Keys(n)}
+    [] OTHER -> {}
+HasIdentCollision2(a, b, keys) ==
+  LET M == ArrayMembers(a) \cup ArrayMembers(b) IN \E m1, m2 \in M : Colliding(m1, m2, keys)
+(* the same for the clauses judged when the diff arrives (the context is not yet updated) *)
+CheckD(c, a, b, o, prop, clause) ==
+  IF c THEN TRUE
+  ELSE IF "setkeys-identity-ignores-key-names" \in KnownDevs /\ Len(o.keys) >= 2
+          /\ HasIdentCollision2(a, b, o.keys)
+       THEN PrintT(<<"JDV-KNOWN", Rec.sess, prop, "setkeys-identity-ignores-key-names", clause>>)
+  ELSE FailLine(prop, clause)
+
 (* ---- the diff as returned ------------------------------------------------ *)
 DiffClauses(a, b, o, d) ==
   /\ Judge("C06") =>
@@ -44,9 +69,9 @@ DiffClauses(a, b, o, d) ==
             /\ Check(IndicesIncrease(d), "C06", "order")
        ELSE TRUE
   /\ Judge("C07") =>
-       /\ Check(MentionsOnlyDifferences(a, b, o, d), "C07", "real-difference")
+       /\ CheckD(MentionsOnlyDifferences(a, b, o, d), a, b, o, "C07", "real-difference")
        /\ Check(Recurses(d), "C07", "equal-subdocument")
-       /\ Check(NoRedundantHunk(a, b, o, d), "C07", "redundant-hunk")
+       /\ CheckD(NoRedundantHunk(a, b, o, d), a, b, o, "C07", "redundant-hunk")
 
 TDiff ==
   /\ IsEvent("Diff") /\ Consume /\ UNCHANGED doc
@@ -83,8 +108,17 @@ AgreesD(dev) ==
 Explained == \E D \in KnownDevs : AgreesD({D})
 StepProp == IF ListMode(ctx.o) THEN "C03" ELSE "C08"
 
+IdentKnown ==
+  /\ "setkeys-identity-ignores-key-names" \in KnownDevs /\ Len(ctx.o.keys) >= 2
+  /\ HasIdentCollision2(ctx.a, ctx.b, ctx.o.keys)
+(* CheckK: like Check, but a failure on an input of the listed class is reported as that finding *)
+CheckK(c, prop, clause) ==
+  IF c THEN TRUE
+  ELSE IF IdentKnown THEN PrintT(<<"JDV-KNOWN", Rec.sess, prop, "setkeys-identity-ignores-key-names", clause>>)
+  ELSE FailLine(prop, clause)
+
 LiteralC01 ==
-  (Judge("C01") /\ ctx.mode = "dp" /\ Rec.k = ctx.n) => Check(Rec.res.st = "ok", "C01", "patch")
+  (Judge("C01") /\ ctx.mode = "dp" /\ Rec.k = ctx.n) => CheckK(Rec.res.st = "ok", "C01", "patch")
 Crash ==
   Judge("C13") => Check(Rec.res.st \in {"ok", "err"}, "C13", "patch-crash")
 
@@ -125,7 +159,7 @@ TStepAfter ==      \* the machine has stopped (error, ambiguity, mismatch): the 
 (* ---- the statement of C01, literally --------------------------------------- *)
 TEquals ==
   /\ IsEvent("Equals") /\ Consume /\ UNCHANGED <<ctx, doc, rest, status>>
-  /\ Judge("C01") => Check(Rec.res.st = "ok" /\ Rec.res.bool, "C01", "equals")
+  /\ Judge("C01") => CheckK(Rec.res.st = "ok" /\ Rec.res.bool, "C01", "equals")
   /\ (Judge("C01") /\ status = "ok" /\ Rec.res.st = "ok") =>
         Note(Rec.res.bool = Eq(doc, ctx.b, ctx.o), "C01", "equals-oracle")
 
@@ -141,7 +175,7 @@ TEqualsAB ==
                     /\ Rec.res.bool = Eq(ctx.a, ctx.b, ctx.o)
                     /\ (ctx.d = <<>>) <=> Eq(ctx.a, ctx.b, [ctx.o EXCEPT !.eps = 0])
                  THEN PrintT(<<"JDV-KNOWN", Rec.sess, "C05", "diff-ignores-precision">>)
-            ELSE FailLine("C05", "empty-iff-equal")
+            ELSE CheckK(FALSE, "C05", "empty-iff-equal")
        /\ Rec.res.st = "ok" => Note(Rec.res.bool = Eq(ctx.a, ctx.b, ctx.o), "C05", "equals-oracle")
 
 TEnd ==
